@@ -82,6 +82,26 @@ def harvest_fens():
     return res
 
 
+def corpus_fens():
+    """minimised failing inputs kept from the seeded-change rounds: every FEN quoted in seeded/*/NOTES.md and in the demos.
+    They run in every pool-based check (class `corpus`), so a mechanism that was once caught by chance stays caught."""
+    import glob
+    pat = re.compile(r'((?:[pnbrqkPNBRQK1-8]{1,8}/){7}[pnbrqkPNBRQK1-8]{1,8} [wb] (?:-|[A-Ha-hKQkq]{1,4}) (?:-|[a-h][36]) \d+ \d+)')
+    out, seen = [], set()
+    for f in sorted(glob.glob(os.path.join(vlib.VERIF, "seeded", "*", "*"))):
+        if not os.path.isfile(f) or os.path.getsize(f) > 400000:
+            continue
+        try:
+            txt = open(f, errors="replace").read()
+        except OSError:
+            continue
+        for x in pat.findall(txt):
+            if x not in seen:
+                seen.add(x)
+                out.append(x)
+    return out
+
+
 def scharnagl(n):
     row = [None] * 8
     n, b1 = divmod(n, 4)
@@ -519,8 +539,38 @@ def template_longray(rng):
     return fen_of(b, "w")
 
 
+def template_edgewrap(rng):
+    """an enemy pawn, knight or king on (or next to) one edge file and our king on (or next to) the opposite edge file, a rank or two
+    apart: a leaper attack that wraps round the board edge shows as a missing or an extra king move (seventh seed round: one bad
+    file mask made a pawn on h7 attack a7)"""
+    side = rng.choice([0, 7])
+    kind = rng.choice("ppppnnk")
+    tf = side if kind != "n" or rng.random() < 0.5 else (1 if side == 0 else 6)
+    tr = rng.randrange(1, 7) if kind == "p" else rng.randrange(8)
+    other = 7 - side
+    kf = rng.choice([other, other, 1 if other == 0 else 6])
+    kr = tr + rng.choice([-2, -1, -1, 0, 0, 1, 1, 2])
+    if not on(kf, kr):
+        return None
+    b = {sq(kf, kr): "K", sq(tf, tr): kind}
+    if kind != "k":
+        free = [s_ for s_ in range(64) if s_ not in b and max(abs(s_ % 8 - kf), abs(s_ // 8 - kr)) > 1]
+        b[rng.choice(free)] = "k"
+    elif max(abs(tf - kf), abs(tr - kr)) <= 1:
+        return None
+    for _ in range(rng.randrange(0, 4)):
+        s_ = rng.randrange(64)
+        if s_ in b:
+            continue
+        pc = rng.choice("NBRPnbrp")
+        if pc in "Pp" and s_ // 8 in (0, 7):
+            continue
+        b[s_] = pc
+    return fen_of(b, "w")
+
+
 TEMPLATES = [("endgame", template_endgame), ("promo-castle", template_promo_castle), ("many", template_many_queens), ("kxr", template_kxr), ("pin", template_pin), ("multipin", template_multipin), ("pawnwedge", template_pawnwedge), ("check", template_check), ("ep", template_ep),
-             ("castle960", template_castle), ("promo", template_promo), ("longray", template_longray)]
+             ("castle960", template_castle), ("promo", template_promo), ("longray", template_longray), ("edgewrap", template_edgewrap)]
 
 
 def template_positions(rng, n):
@@ -555,6 +605,8 @@ def build_pool(run, n_playouts, plies, n_templates, tag):
     seeds += [("suite", f) for f in harvest_fens()]
     seeds += [("template", f) for f in TEMPLATE_FENS] + [("template", mirror_fen(f)) for f in TEMPLATE_FENS]
     seeds += [("extreme", f) for f in EXTREME_FENS]
+    cf = corpus_fens()
+    seeds += [("corpus", f) for f in cf] + [("corpus", mirror_fen(f)) for f in cf]
     for _ in range(max(8, n_playouts // 6)):
         n = rng.randrange(960)
         seeds.append(("c960", start960(n, n, shredder=rng.random() < 0.5)))
